@@ -210,7 +210,7 @@ class MALA(ULA): # Refactor to Proposal-based sampler?
         log_target_ratio = target_eval_star - self.current_target_logd
         log_prop_ratio = self._log_proposal(self.current_point, x_star, target_grad_star) \
             - self._log_proposal(x_star, self.current_point,  self.current_target_grad)
-        log_alpha = min(0, log_target_ratio + log_prop_ratio)
+        log_alpha = np.minimum(0, log_target_ratio + log_prop_ratio) # a NaN ratio stays NaN: rejected
 
         # accept/reject with Metropolis
         acc = 0
